@@ -8,6 +8,7 @@ mod obs;
 mod pages;
 mod storage;
 mod val;
+mod vectors;
 
 use serde_json::{Value, json};
 use std::collections::HashMap;
@@ -81,6 +82,12 @@ fn main() {
                 json!({"histories": s.histories, "ops": s.ops, "dumps": s.dumps, "images": s.images,
                        "images_distinct": s.images_distinct, "faults": s.faults, "io_steps": s.io_steps})
             );
+        }
+        "vectors" => {
+            let scenarios = read_ndjson(a.get("in").expect("--in"));
+            let out = std::fs::File::create(a.get("out").expect("--out")).unwrap();
+            let mut w = BufWriter::new(out);
+            println!("{}", vectors::run(&scenarios, &mut w, &scratch));
         }
         "pages" => {
             let scenarios = read_ndjson(a.get("in").expect("--in"));
